@@ -208,6 +208,17 @@ Theorem member_lookup_complete : forall mods resA resB frs i cns,
   fr_target mods resA resB frs i cns -> exists fuel, resolve_fr mods resA resB frs fuel i = FROk cns.
 Proof. exact resolve_fr_complete_lem. Qed.
 
+(* a parameter has no members: `p.x`, and `v.x` where following v's aliases ends in a parameter,
+   are rejected with the noncomposite error *)
+Theorem parameter_ends_alias_chain : forall mods rec v p, devirt mods rec v (OParam p) = DParam.
+Proof. exact devirt_parameter. Qed.
+
+Theorem member_of_parameter_rejected : forall mods resA rec v file o pr n l rest acc,
+  devirt mods rec v o = DParam ->
+  walk_members mods resA rec v file o pr ((n, l) :: rest) acc
+  = FRErr (Err KNoncomposite file (snd pr) (fst pr) []).
+Proof. exact member_of_parameter_lem. Qed.
+
 Theorem member_lookup_fuel_monotone : forall mods resA resB frs f f' i cns,
   f <= f' -> resolve_fr mods resA resB frs f i = FROk cns -> resolve_fr mods resA resB frs f' i = FROk cns.
 Proof. exact resolve_fr_mono. Qed.
@@ -261,3 +272,9 @@ Example member_relation_inhabited :
     Resolved2 [[CN "m.emb" ["Outer"; "i"]]; [CN "m.emb" ["Outer"; "v"]; CN "m.emb" ["Inner"; "q"]]]
   /\ run_pass2 (w_mem_input true) = Rejected2 [Err KArray "m.emb" 8 "arr" []].
 Proof. exact (conj w_mem_resolved w_mem_array_rejected). Qed.
+
+(* `p.x` on a parameter, and `v.x` with `let v = p`: both rejected *)
+Example parameter_member_rejected :
+  run_pass2 (w_par_input false) = Rejected2 [Err KNoncomposite "m.emb" 4 "p" []]
+  /\ run_pass2 (w_par_input true) = Rejected2 [Err KNoncomposite "m.emb" 4 "v" []].
+Proof. exact (conj w_par_direct w_par_via_alias). Qed.
